@@ -1433,7 +1433,12 @@ func (f *Frame) checkAtCall(instr ssa.Instruction, c *ssa.CallCommon, st *State)
 	}
 	src := f.text(instr.Pos())
 	for _, ac := range ct.AtCall {
-		if !strings.Contains(src, ac.Match) {
+		if strings.HasPrefix(ac.Match, "^") {
+			// anchored: the call's own text starts with the pattern (an enclosing call does not match)
+			if !strings.HasPrefix(strings.TrimSpace(src), ac.Match[1:]) {
+				continue
+			}
+		} else if !strings.Contains(src, ac.Match) {
 			continue
 		}
 		g.atReturnUsed["at-call:"+ac.Match+"::"+ac.Clause.Text]++
